@@ -264,6 +264,31 @@ class PE:
             finally:
                 self.calls.append(('<loop-end>', [], {}, s))
             return
+        if isinstance(s, ast.While):
+            # decidable tests: iterate (bounded); otherwise: zero iterations, or one generic iteration followed by exit
+            self.calls.append(('<loop-begin>', [None, 'while ' + norm(s.test)], {}, s))
+            try:
+                n = 0
+                while True:
+                    go = self.truth(s.test, env, func, depth) if n == 0 or self._concrete_test(s.test, env, func, depth) else False
+                    if not go:
+                        break
+                    n += 1
+                    if n > 64:
+                        raise Incomplete('while loop does not terminate within 64 evaluated iterations: %s' % norm(s.test)[:60])
+                    try:
+                        self.block(s.body, env, func, depth)
+                    except _Continue:
+                        continue
+                    except _Break:
+                        break
+                else:
+                    pass
+                if n == 0 or not go:
+                    self.block(s.orelse, env, func, depth)
+            finally:
+                self.calls.append(('<loop-end>', [], {}, s))
+            return
         if isinstance(s, ast.Try):
             self.block(s.body, env, func, depth)
             self.block(s.finalbody, env, func, depth)
@@ -386,6 +411,25 @@ class PE:
                     return m[0][0]          # the name is an alias of a symbolic object / location
             return e.id
         return norm(e)
+
+    def _concrete_test(self, e, env, func, depth):
+        """can the test be decided from the current values alone (no fork)?"""
+        saved = (self.cursor, list(self.conds))
+        try:
+            dec, self_dec = self.decide, None
+
+            def nodecide(text):
+                raise NeedDecision(text)
+            self.decide = nodecide
+            try:
+                self.truth(e, env, func, depth)
+                return True
+            except NeedDecision:
+                return False
+            finally:
+                self.decide = dec
+        finally:
+            self.cursor, self.conds = saved[0], saved[1]
 
     # ------------------------------------------------------------------------------------------------ truth
     def truth(self, e, env, func, depth):
